@@ -103,7 +103,7 @@ def stmts(ss):
         elif k == "if":
             out.append(["if", ex(s[1]), stmts(s[2])] + ([stmts(s[3])] if s[3] is not None else []))
         elif k == "for":
-            v = ("var", s[1], (False, 32))
+            v = ("var", s[1], tuple(s[6]) if len(s) > 6 and s[6] else (False, 32))
             cond = ("cmp", "<", v, s[2])
             if len(s) > 4 and s[4]:
                 if s[4][0] == "andcmp":
